@@ -35,7 +35,7 @@ T = {
   ref="5 C05"),
  "C06": dict(
   technique="exhaustive enumeration of gate trees (<=5 leaves quick, <=6 thorough) against set semantics of AND/OR/XOR",
-  text="All gate trees up to the bound with their complete outcome families are fed to calculate_logic_gates; the returned tree is interpreted by the same three rules; soundness for all, exactness for the stated sub-class.",
+  text="All gate trees up to the bound with their complete outcome families are fed to calculate_logic_gates; the returned tree is interpreted by the same three rules; soundness for all, exactness for the stated sub-class; the smaller trees are inferred again under four naming schemes (names that are concatenations of each other, operator tokens, white-space twins) - the event name 'tau' is an open finding and is not generated.",
   note="Trusted: 30-line outcome semantics used for both sides.",
   ref="5 C06"),
  "C07": dict(
@@ -70,12 +70,12 @@ T = {
   ref="5 C12"),
  "C13": dict(
   technique="differential property testing against a reference interpreter of the documented path semantics",
-  text="Generated OTel-shaped documents and mappings built from the documented forms are run through the real jq-based JSONDataSource and through a pure-Python reference interpreter; yielded OTelEvents must agree as multisets in whole-file and per-line modes.",
+  text="Generated OTel-shaped documents and mappings built from the documented forms are run through the real jq-based JSONDataSource and through a pure-Python reference interpreter; yielded OTelEvents must agree as multisets in whole-file and per-line modes, for drawn file layouts (nested directories, single file through filepath, several per-line files).",
   note="Trusted: vlib/refjq.py written from docs/user/json_data_converter_HOWTO.md.",
   ref="5 C13"),
  "C14": dict(
   technique="differential property testing of the two CLI routes through the real entry point",
-  text="Generated multi-workflow trace sets are run through otel2puml and through otel2pv -se followed by pv2puml (optionally with one custom mapping); diagrams must be equivalent and saved files must equal the in-memory stream.",
+  text="Generated multi-workflow trace sets are run through otel2puml and through otel2pv -se followed by pv2puml (optionally with one custom mapping); diagrams must be equivalent and saved files must equal the in-memory stream; pv2puml reads the saved files as a folder, as listed files or as single-event files with -group-by-job; values also in real-telemetry forms (URLs, route templates), single-trace workflows with 64..256 spans.",
   note="Trusted: reference acceptor for diagram equivalence; real argparse entry point.",
   ref="5 C14"),
  "C15": dict(
